@@ -11,6 +11,16 @@ from harness.c03 import decode_visibility
 ANCHORS = ['get_bind_group_data']
 
 
+SPACE_DECL = {'Uniform': 'var<uniform> v{i}: vec4<f32>;', 'Storage': 'var<storage, read> v{i}: vec4<f32>;', 'Handle': 'var v{i}: texture_2d<f32>;'}
+RENDER = {'spaces': None, 'terms': None}        # address space of each variable for the next rendering (set from a model, or at random)
+
+
+def set_spaces(m):
+    if RENDER['terms'] is not None:
+        inv = RENDER['inv']
+        RENDER['spaces'] = [inv[model_value(m, t)] for t in RENDER['terms']]
+
+
 def template(k, vals=None):
     out = []
     for i in range(k):
@@ -18,7 +28,8 @@ def template(k, vals=None):
             out.append(f'@group(0) @binding({i}) var<uniform> v{i}: vec4<f32>;')
         else:
             p, g, b = vals[i]
-            out.append(f'@group({g}u) @binding({b}u) var<uniform> v{i}: vec4<f32>;' if p else f'var<private> v{i}: vec4<f32>;')
+            sp = (RENDER['spaces'] or [])[i] if RENDER['spaces'] and i < len(RENDER['spaces']) else 'Uniform'
+            out.append(f'@group({g}u) @binding({b}u) ' + SPACE_DECL[sp].replace('{i}', str(i)) if p else f'var<private> v{i}: vec4<f32>;')
     out.append('@fragment fn main() {}')
     return '\n'.join(out) + '\n'
 
@@ -29,7 +40,16 @@ def build(ctx, k):
     module = ctx.S.module(src)
     gvs = c.get(module, 'global_variables').fields[0].items
     holes = []
+    AS = {v['name']: v['disc'] for v in ctx.S.schema['enums']['AddressSpace']}
+    from mirsym.schema import mkflags
+    RENDER['terms'], RENDER['inv'], RENDER['spaces'] = [], {AS[n]: n for n in SPACE_DECL}, None
+    ctx.space_assume = []
     for i in range(k):
+        # the address space of every variable is symbolic (uniform / storage / handle): a slot is a slot whatever lives in it
+        sp = z3.BitVec(f'space{i}', 64)
+        c.set(gvs[i], 'space', c.sym_enum('AddressSpace', sp, {'Storage': [mkflags('StorageAccess', 1)]}))
+        RENDER['terms'].append(sp)
+        ctx.space_assume.append(z3.Or([sp == AS[n] for n in SPACE_DECL]))
         p = z3.Bool(f'has_binding{i}')
         g = z3.BitVec(f'group{i}', 32)
         b = z3.BitVec(f'binding{i}', 32)
@@ -57,12 +77,19 @@ def expected(holes):
     return dup, any_dup, first_b, z3.And(dense)
 
 
+def first_time(ctx, key):
+    """one replayed report per kind of failure is enough (a changed implementation can fail on thousands of paths)"""
+    seen = ctx.extra.setdefault('violations_by_rule', {})
+    seen[key] = seen.get(key, 0) + 1
+    return seen[key] == 1
+
+
 def check_result(ctx, label, holes, pc, kind, out, src_of):
     dup, any_dup, first_b, dense = expected(holes)
     k = len(holes)
 
     def rep_err(m, want):
-        vals = [(model_value(m, p), model_value(m, g), model_value(m, b)) for p, g, b in holes]
+        vals = [(model_value(m, p), model_value(m, g), model_value(m, b)) for p, g, b in holes]; set_spaces(m)
         src = src_of(vals)
         r = ctx.S.oracle.gen(src, {})
         return src, vals, r
@@ -80,7 +107,7 @@ def check_result(ctx, label, holes, pc, kind, out, src_of):
         else:
             bad = z3.BoolVal(True)
         m = ctx.check(pc, bad)
-        if m is not None:
+        if m is not None and first_time(ctx, f'C11/wrong-error/{e.variant}'):
             src, vals, r = rep_err(m, None)
             # expected verdict for these concrete pairs, by the statement
             exp = verdict(vals)
@@ -106,7 +133,7 @@ def check_result(ctx, label, holes, pc, kind, out, src_of):
         if seen_names.get(i, 0) > 1:
             conds.append(z3.BoolVal(False))
     m = ctx.check(pc, z3.Not(z3.And(conds)))
-    if m is not None:
+    if m is not None and first_time(ctx, 'C11/wrong-success'):
         src, vals, r = rep_err(m, None)
         exp = verdict(vals)
         got = r.get('err', {}) if 'err' in r else ('ok' if 'ok' in r else r)
@@ -170,10 +197,10 @@ def run(ctx):
     ks = [2, 3, 4] if quick else [2, 3, 4, 5]
     ctx.bounds = {'variables': ks, 'group / binding numbers': 'all of u32 x u32, presence of a binding symbolic'}
     ctx.assumptions += ['validation off (validator stubs are covered by C17)',
-                        'resource type fixed to a uniform buffer: get_bind_group_data does not look at the type']
+                        'address space of every variable symbolic over uniform / storage / handle (texture); the resource type itself is not looked at']
     for k in ks:
         src, module, holes = build(ctx, k)
-        res = ctx.explore(f'get_bind_group_data/k={k}', lambda it: it.call('get_bind_group_data', [mkref(module)]), anchors=ANCHORS,
+        res = ctx.explore(f'get_bind_group_data/k={k}', lambda it: it.call('get_bind_group_data', [mkref(module)]), assume=ctx.space_assume, anchors=ANCHORS,
                           timeout_s=900)
         for pc, kind, out, _ in res:
             check_result(ctx, f'k={k}', holes, pc, kind, out, lambda vals: template(k, vals))
@@ -186,7 +213,7 @@ def run(ctx):
         picks = (oks[:2] + errs[:4]) if quick else (oks[:6] + errs[:12])
         for pc, kind, out, _ in picks:
             m = ctx.witness(pc)
-            vals = [(model_value(m, p), model_value(m, g), model_value(m, b)) for p, g, b in holes]
+            vals = [(model_value(m, p), model_value(m, g), model_value(m, b)) for p, g, b in holes]; set_spaces(m)
             r = ctx.S.oracle.gen(template(k, vals), {})
             mine = 'ok' if out.disc == 0 else {'kind': out.fields[0].variant}
             if out.disc == 1 and out.fields[0].variant == 'DuplicateBinding':
@@ -206,12 +233,12 @@ def run(ctx):
     vo = Agg('Option', {'Some': [Agg('ValidationOptions', [Agg('Capabilities', [Agg('InternalBitFlags', [z3.BitVec('capabilities', 32)])])])], 'None': []},
              disc=z3.If(validate_on, z3.BitVecVal(1, 64), z3.BitVecVal(0, 64)))
     res = ctx.explore('create_shader_module_inner/k=2', lambda it: it.call('create_shader_module_inner', [src, none(), write_options(ctx.S.conv, validate=vo)]),
-                      env=env, anchors=ANCHORS + ['create_shader_module_inner'])
+                      assume=ctx.space_assume, env=env, anchors=ANCHORS + ['create_shader_module_inner'])
     dup, any_dup, first_b, dense = expected(holes)
     for pc, kind, out, _ in res:
         if kind == 'panic':
             m = ctx.witness(pc)
-            vals = [(model_value(m, p), model_value(m, g), model_value(m, b)) for p, g, b in holes]
+            vals = [(model_value(m, p), model_value(m, g), model_value(m, b)) for p, g, b in holes]; set_spaces(m)
             r = ctx.S.oracle.gen(template(k, vals), {})
             ctx.report('C11/panic', f'generator panics ({out}) for pairs {vals}', {'wgsl': template(k, vals)}, 'panic' in r, r)
             continue
@@ -223,7 +250,7 @@ def run(ctx):
             bad = z3.Or(any_dup, z3.Not(dense))
         m = ctx.check(pc, bad)
         if m is not None:
-            vals = [(model_value(m, p), model_value(m, g), model_value(m, b)) for p, g, b in holes]
+            vals = [(model_value(m, p), model_value(m, g), model_value(m, b)) for p, g, b in holes]; set_spaces(m)
             von = model_value(m, validate_on)
             r = ctx.S.oracle.gen(template(k, vals), {'validate': True} if von else {})
             got = 'ok' if 'ok' in r else r.get('err', r)
@@ -243,6 +270,7 @@ def native(ctx):
         pool_b = [0, 1, 2, 5, 9, 2 ** 31, 2 ** 32 - 1]
         vals = [(ctx.rng.random() < 0.85, ctx.rng.choice(pool_g[:3] if ctx.rng.random() < 0.8 else pool_g), ctx.rng.choice(pool_b[:4] if ctx.rng.random() < 0.8 else pool_b))
                 for _ in range(k)]
+        RENDER['spaces'] = [ctx.rng.choice(list(SPACE_DECL)) for _ in range(k)]
         src = template(k, vals)
         r = ctx.S.oracle.gen(src, {})
         got = 'ok' if 'ok' in r else r.get('err', r)
